@@ -139,6 +139,8 @@ Definition n_vsid := name4 118 115 105 100.
 Definition n_data := name4 100 97 116 97.
 Definition n_mime := name4 109 105 109 101.
 Definition n_wvtt := name4 119 118 116 116.
+Definition n_dac3 := name4 100 97 99 51.
+Definition n_dec3 := name4 100 101 99 51.
 
 (* ---------------------------------------------------------------- box header (box.go / boxsr.go) *)
 Record hdr := mkHdr { h_name : list N; h_size : N; h_len : N }.
@@ -271,7 +273,14 @@ Inductive leaf :=
 | LMime (version flags : N) (ct : list N) (lacks : bool)
 (* WvttBox prefix: DataReferenceIndex; short (ghost): the reader ran dry inside the eight prefix bytes and the decoder
    went on with zeros (DecodeWvttSR does not look at sr.AccError()) *)
-| LWvtt (dri : N) (short : bool).
+| LWvtt (dri : N) (short : bool)
+(* Dac3Box: FSCod BSID BSMod ACMod LFEOn BitRateCode Reserved InitialZeroes; canon (ghost): the payload was exactly
+   InitialZeroes + 3 bytes (a shorter one is padded by the bit reader's zeros, 256*k more bytes are dropped) *)
+| LDac3 (fscod bsid bsmod acmod lfeon brc rsvd iz : N) (canon : bool)
+(* Dec3Box: DataRate, EC3Subs (FSCod BSID ASVC BSMod ACMod LFEOn NumDepSub ChanLoc), Reserved (the bytes after the last
+   substream); canon (ghost): the reserved bits inside the substreams (1 + 3, and 1 more without dependent substreams)
+   were 0 -- the decoder drops them, the encoder writes 0 *)
+| LDec3 (datarate : N) (subs : list (N * N * N * N * N * N * N * N)) (reserved : list N) (canon : bool).
 
 Definition leaf_name (l : leaf) : list N :=
   match l with
@@ -295,6 +304,7 @@ Definition leaf_name (l : leaf) : list N :=
   | LUuidTfxd _ _ _ _ => n_uuid | LUuidTfrf _ _ _ _ => n_uuid | LUuidSenc _ _ _ _ _ => n_uuid | LUuidUnk _ _ => n_uuid
   | LSgpd _ _ _ _ _ _ _ => n_sgpd
   | LData _ _ _ => n_data | LMime _ _ _ _ => n_mime | LWvtt _ _ => n_wvtt
+  | LDac3 _ _ _ _ _ _ _ _ _ => n_dac3 | LDec3 _ _ _ _ => n_dec3
   end.
 
 Definition unity_matrix : list N :=
@@ -1244,6 +1254,66 @@ Definition dec_wvtt (h : hdr) : parser (leaf * rsvT) := fun bs =>
   | _ => if 16 <? h_size h then Err else Ok ((LWvtt 0 true, [zeros 6]), bs)
   end.
 
+(* ---------------------------------------------------------------- dac3 / dec3 (bits.Reader over the whole payload) *)
+(* decoders of the shape `data := sr.ReadBytes(hdr.payloadLen()); return decodeXxxFromData(data)` *)
+Definition dec_whole (f : list N -> option leaf) (h : hdr) : parser (leaf * rsvT) :=
+  pdo data <- rdB (payload_len h) ;;
+  fun r => match f data with Some l => Ok ((l, []), r) | None => Err end.
+
+Definition dac3_word (fscod bsid bsmod acmod lfeon brc rsvd : N) : N :=
+  fscod * 4194304 + bsid * 131072 + bsmod * 16384 + acmod * 2048 + lfeon * 1024 + brc * 32 + rsvd.
+(* the seven bit fields of the 24-bit word, most significant first: 2 5 3 3 1 5 5 bits *)
+Definition dac3_fields (w : N) : N * N * N * N * N * N * N :=
+  let q1 := w / 32 in let q2 := q1 / 32 in let q3 := q2 / 2 in let q4 := q3 / 8 in let q5 := q4 / 8 in let q6 := q5 / 32 in
+  (q6 mod 4, q5 mod 32, q4 mod 8, q3 mod 8, q2 mod 2, q1 mod 32, w mod 32).
+(* bits.Reader.Read answers 0 for a field that needs a byte behind the end of the data, and for every field after it:
+   with n < 3 bytes the fields ending at bit 2 7 10 13 14 19 24 survive when they end within 8*n bits *)
+Definition dac3_cut (n : N) (e v : N) : N := if e <=? 8 * n then v else 0.
+(* decodeDac3FromData: InitialZeroes = byte(len(data)-3) when len(data) > 3; those bytes must be 0; then the 24 bits *)
+Definition dac3_of (data : list N) : option leaf :=
+  let n := lenN data in
+  if n <? 3 then
+    match dac3_fields (nth 0 data 0 * 65536 + nth 1 data 0 * 256) with
+    | (a, b, c, d, e, f, g) =>
+        let k := dac3_cut n in Some (LDac3 (k 2 a) (k 7 b) (k 10 c) (k 13 d) (k 14 e) (k 19 f) (k 24 g) 0 false)
+    end
+  else
+    let iz := if 3 <? n then u8 (n - 3) else 0 in
+    match rdB iz data with
+    | Ok (zs, rest) =>
+        if negb (forallb (N.eqb 0) zs) then None else
+        match rd 3 rest with
+        | Ok (w, extra) =>
+            match dac3_fields w with
+            | (a, b, c, d, e, f, g) => Some (LDac3 a b c d e f g iz (lenN extra =? 0))
+            end
+        | _ => None
+        end
+    | _ => None
+    end.
+Definition dec_dac3 : hdr -> parser (leaf * rsvT) := dec_whole dac3_of.
+
+(* one EC3Sub, three bytes or four (ChanLoc present when NumDepSub > 0); the flag says that the reserved bits were 0 *)
+Definition rd_ec3sub : parser ((N * N * N * N * N * N * N * N) * bool) :=
+  pdo b0 <- rd 1 ;; pdo b1 <- rd 1 ;; pdo b2 <- rd 1 ;;
+  let nds := (b2 / 2) mod 16 in
+  let flds cl := (b0 / 64, (b0 / 2) mod 32, b1 / 128, (b1 / 16) mod 8, (b1 / 2) mod 8, b1 mod 2, nds, cl) in
+  if 0 <? nds then (pdo b3 <- rd 1 ;; pret (flds ((b2 mod 2) * 256 + b3), (b0 mod 2 =? 0) && (b2 / 32 =? 0)))
+  else pret (flds 0, (b0 mod 2 =? 0) && (b2 / 32 =? 0) && (b2 mod 2 =? 0)).
+Definition wr_ec3sub (s : N * N * N * N * N * N * N * N) : list N :=
+  match s with (fscod, bsid, asvc, bsmod, acmod, lfeon, nds, cl) =>
+    be_enc 1 (fscod * 64 + bsid * 2) ++ be_enc 1 (asvc * 128 + bsmod * 16 + acmod * 2 + lfeon) ++
+    be_enc 1 (nds * 2 + (if 0 <? nds then cl / 256 else 0)) ++ (if 0 <? nds then be_enc 1 (cl mod 256) else [])
+  end.
+(* decodeDec3FromData: DataRate (13 bits), nrSubs-1 (3 bits), the substreams (an error when the data ends inside one),
+   Reserved = the remaining bytes *)
+Definition dec3_of (data : list N) : option leaf :=
+  match (pdo hd <- rd 2 ;; pdo subs <- rd_many 9 (hd mod 8 + 1) rd_ec3sub ;; pret (hd / 8, subs)) data with
+  | Ok ((dr, subs), reserved) => Some (LDec3 dr (map fst subs) reserved (forallb snd subs))
+  | _ => None
+  end.
+Definition dec_dec3 : hdr -> parser (leaf * rsvT) := dec_whole dec3_of.
+
 Definition dec_empty (h : hdr) : parser (leaf * rsvT) := pret (LFree (h_name h) [], []).
 Definition dec_b4 (h : hdr) : parser (leaf * rsvT) := pdo d <- rdB 4 ;; pret (LFree (h_name h) d, []).
 
@@ -1411,6 +1481,10 @@ Definition body_leaf (l : leaf) (r : rsvT) : res (list N) :=
   | LData t loc d => Ok (be_enc 4 t ++ be_enc 4 loc ++ d)
   | LMime v f ct lacks => Ok (be_enc 4 (vf_join v f) ++ ct ++ (if lacks then [] else [0]))
   | LWvtt dri _ => Ok (chunk 0 r ++ be_enc 2 dri)
+  (* InitialZeroes times WriteBits(0, 8), then the seven fields *)
+  | LDac3 a b c d e f g iz _ => Ok (zeros (N.to_nat iz) ++ be_enc 3 (dac3_word a b c d e f g))
+  (* WriteBits(DataRate, 13); WriteBits(len(EC3Subs)-1, 3); the substreams with their reserved bits 0; Reserved *)
+  | LDec3 dr subs reserved _ => Ok (be_enc 2 (dr * 8 + (lenN subs - 1) mod 8) ++ flat_map wr_ec3sub subs ++ reserved)
   end.
 
 (* WriteZeroBytes(int(31 - compressorNameLength)) with compressorNameLength := byte(len(name)), in byte arithmetic *)
@@ -1534,6 +1608,9 @@ Definition size_leaf (l : leaf) : N :=
   | LData _ _ d => 8 + 8 + lenN d
   | LMime _ _ ct lacks => 8 + 4 + lenN ct + 1 - (if lacks then 1 else 0)
   | LWvtt _ _ => 16
+  | LDac3 _ _ _ _ _ _ _ iz _ => 8 + 3 + iz
+  | LDec3 _ subs reserved _ =>
+      8 + 2 + sumN (map (fun s => match s with (_, _, _, _, _, _, nds, _) => if 0 <? nds then 4 else 3 end) subs) + lenN reserved
   end.
 
 (* header written by the leaf encoder *)
@@ -1568,7 +1645,7 @@ Definition leaf_table : list (list N * (hdr -> parser (leaf * rsvT))) :=
     (n_hvcC, dec_hvcC); (n_subs, dec_subs); (n_esds, dec_esds); (n_uuid, dec_uuid); (n_sgpd, dec_sgpd);
     (n_vttC, dec_free); (n_vlab, dec_free); (n_ctim, dec_free); (n_iden, dec_free); (n_sttg, dec_free);
     (n_payl, dec_free); (n_vtta, dec_free); (n_vtte, dec_empty); (n_vsid, dec_b4);
-    (n_data, dec_data); (n_mime, dec_mime) ].
+    (n_data, dec_data); (n_mime, dec_mime); (n_dac3, dec_dac3); (n_dec3, dec_dec3) ].
 
 (* boxes with a field prefix followed by child boxes.  PStrict off: DecodeContainerChildrenSR(hdr, startPos+off,
    startPos+hdr.Size) (sizes cross-checked against the bytes consumed); PEntry start: the sample entry loop
@@ -1852,6 +1929,8 @@ Definition leaf_guard (l : leaf) : bool :=
   | LSgpd _ _ _ _ _ _ canon => canon
   (* a wvtt whose prefix was not there *)
   | LWvtt _ short => negb short
+  | LDac3 _ _ _ _ _ _ _ _ canon => canon
+  | LDec3 _ _ _ canon => canon
   | _ => true
   end.
 
